@@ -26,6 +26,8 @@ pub struct Case {
     pub ops: Vec<Op>,
 }
 
+const LANDMARK: i32 = 1_000_000;
+
 pub struct P;
 
 #[derive(Clone, Copy)]
@@ -495,6 +497,9 @@ impl Prop for P {
                 4 => (-200i32..=4300, -200i32..=4300),
                 2 => (0i32..=64, 0i32..=64),
                 1 => (-100_000i32..=100_000, -100_000i32..=100_000),
+                // landmark of the current image (resolved below): centre pixel
+                // and its neighbours, corners, one past the last pixel
+                2 => (0i32..10).prop_map(|k| (LANDMARK + k, 0)),
             ]
         };
         let scroll = || {
@@ -525,21 +530,46 @@ impl Prop for P {
                 // repeat some drag positions
                 let mut cur = size;
                 let mut last: Option<(i32, i32)> = None;
+                let landmark = |x: &mut i32, y: &mut i32, cur: (u32, u32, u32)| {
+                    if *x >= LANDMARK && *x < LANDMARK + 10 {
+                        let (w, h) = (cur.0 as i32, cur.1 as i32);
+                        let (lx, ly) = [
+                            (w / 2, h / 2 - 1),
+                            (w / 2, h / 2),
+                            (w / 2 - 1, h / 2 - 1),
+                            (w / 2 - 1, h / 2),
+                            (0, 0),
+                            (w - 1, h - 1),
+                            (w, h),
+                            (0, h - 1),
+                            (w / 2, 0),
+                            (0, h / 2 - 1),
+                        ][(*x - LANDMARK) as usize];
+                        *x = lx;
+                        *y = ly;
+                    }
+                };
                 for (i, o) in ops.iter_mut().enumerate() {
                     match o {
-                        Op::Interact { size: s, .. } => {
+                        Op::Interact { size: s, cursor, .. } => {
                             if *s == (0, 0, 0) {
                                 *s = cur;
                             } else {
                                 cur = *s;
                             }
+                            if let Some((x, y, _)) = cursor {
+                                landmark(x, y, cur);
+                            }
                         }
+                        Op::BeginDrag { x, y, .. } => landmark(x, y, cur),
+                        Op::Zoom { at: Some((x, y)), .. } => landmark(x, y, cur),
                         Op::Resize { size: s } => {
                             if !three_d {
                                 cur = *s;
                             }
                         }
                         Op::Drag { x, y } => {
+                            landmark(x, y, cur);
                             if i % 3 == 0 {
                                 if let Some((lx, ly)) = last {
                                     *x = lx;
